@@ -90,7 +90,7 @@ Definition env_set_uri (u : track) : M unit :=
   acall_log (ASetUri u) ;;
   w <- get ;;
   (when is_some (a_uri w) do modify (fun w => w <| protocol_violations := protocol_violations w + 1 |>)) ;;
-  modify (fun w => w <| a_uri := Some u |> <| a_pos := 0 |> <| a_fresh := true |>).
+  modify (fun w => w <| a_uri := Some u |> <| a_pos := 0 |> <| a_fresh := true |> <| a_atf_done := false |>).
 
 Definition env_set_state (new : ps) : M bool :=
   bcall ;; acall_log (ASetState new) ;;
